@@ -580,7 +580,11 @@ func miniSelftest(bin string, cfg *checkCfg, seed uint64, env []string) bool {
 			e = env
 		}
 		cur := map[int]rec{}
-		o := &poolOpts{bin: bin, cfg: cfg, engine: cfg.Engine, seed: seed, tier: "thorough", from: 0, to: 24,
+		stTier := "thorough"
+		if cfg.SelftestFrom > 0 {
+			stTier = "quick" // SelftestFrom is expressed in the quick tier's run numbering
+		}
+		o := &poolOpts{bin: bin, cfg: cfg, engine: cfg.Engine, seed: seed, tier: stTier, from: cfg.SelftestFrom, to: cfg.SelftestFrom + 24,
 			replayDir: filepath.Join(scratch(), fmt.Sprintf("selftest-%d", ci)), env: e, noShrink: true, workers: c.workers}
 		runPoolRecording(o, func(l *wline) { cur[l.Run] = rec{l.Outcome.Trace, l.Class} })
 		if ref == nil {
